@@ -1,4 +1,5 @@
 import Reduino.Lang.Tr
+import Reduino.Lang.Escape
 /- C++ text of a translated program, line by line, in the emitter's own format (compared whitespace-normalised). -/
 namespace Reduino.Lang
 
@@ -14,8 +15,12 @@ def MinMax.name : MinMax → String | .min => "min" | .max => "max"
 def Expr.c : Expr → String
   | .int n => toString n
   | .bool b => if b then "true" else "false"
+  | .str t => "\"" ++ String.ofList (Esc.escape t.toList) ++ "\""      -- `_escape_string_literal`
   | .var x => x
-  | .bin op a b => s!"({a.c} {op.sym} {b.c})"
+  -- `if isinstance(n.op, ast.Add) and left_c.startswith('"'): left_c = f"String({left_c})"` (only a literal starts with a quote)
+  | .bin op a b => (match op, a with
+    | .add, .str _ => s!"(String({a.c}) {op.sym} {b.c})"
+    | _, _ => s!"({a.c} {op.sym} {b.c})")
   | .neg a => s!"({negSym}{a.c})"
   | .cmp op a b => s!"({a.c} {op.sym} {b.c})"
   | .and a b => s!"({a.c} && {b.c})"
@@ -24,8 +29,9 @@ def Expr.c : Expr → String
   | .ite c a b => s!"({c.c} ? {a.c} : {b.c})"
   | .abs a => s!"abs({a.c})"
   | .mm k a b => s!"{k.name}({a.c}, {b.c})"
+  | .toStr a => s!"String({a.c})"
 
-def Ty.c : Ty → String | .int => "int" | .bool => "bool"
+def Ty.c : Ty → String | .int => "int" | .bool => "bool" | .string => "String"
 
 def tmpDeclLines : Nat → List Ty → List Expr → List String
   | k, t :: ts, e :: es => s!"{t.c} {tmpName k} = {e.c};" :: tmpDeclLines (k + 1) ts es
